@@ -243,7 +243,7 @@ func ruleC04Forms(e *Env) {
 	}
 	for _, g := range []struct{ name, want string }{{"Formatter", "DefaultFormatter"}, {"Parser", "DefaultParser"}} {
 		if gv := e.Var(rule, "size", g.name); gv != nil {
-			if f := e.C.GlobalFuncInit(gv); f == nil || flow.Origin(f) != e.P.Func("size", g.want) {
+			if f := e.C.GlobalFuncInit(gv); f == nil || flow.Origin(f) != e.F("size", g.want) {
 				e.S.Bad(rule, "size."+g.name, "initialiser", "not initialised to "+g.want+" or reassigned inside the module", "", "")
 			} else {
 				e.S.Ok(rule, "size."+g.name, "initialiser", "= "+g.want+", never reassigned inside the module", "")
